@@ -792,13 +792,16 @@ static double get_entropy(const double temperature, const double f,
                           const int classical) {
     /* temperature is defined by T (K) */
     /* 'f' must be given in eV. */
-    double val;
+    /* coth(x/2) and log(2 sinh(x/2)) are written with exp(-x), */
+    /* x = f / (KB T), so that nothing overflows at low temperature. */
+    double val, val1;
     if (classical) {
         return KB - KB * log(f / (KB * temperature));
     } else {
-        val = f / (2 * KB * temperature);
-        return 1 / (2 * temperature) * f * cosh(val) / sinh(val) -
-               KB * log(2 * sinh(val));
+        val = f / (KB * temperature);
+        val1 = exp(-val);
+        return 1 / (2 * temperature) * f * (1 + val1) / (1 - val1) -
+               KB * (val / 2 + log(1 - val1));
     }
 }
 
@@ -811,9 +814,10 @@ static double get_heat_capacity(const double temperature, const double f,
     if (classical) {
         return KB;
     } else {
+        /* exp(-val) instead of exp(val): exp(val) overflows at low T. */
         val = f / (KB * temperature);
-        val1 = exp(val);
-        val2 = (val) / (val1 - 1);
+        val1 = exp(-val);
+        val2 = (val) / (1 - val1);
         return KB * val1 * val2 * val2;
     }
 }
